@@ -315,6 +315,38 @@ theorem threshold_accounting (cfg : Cfg) (ks : List Part) :
     omega
 
 open Obao.Threshold in
+/-- **An attempt completes only on `threshold` DISTINCT parts.**  After every history `ks`, whichever part `k` comes
+next: if that submission ends the attempt — `shamir.Combine` (or `Parts[0]`) runs and the progress is reset, whether
+it yields a key or a Combine error — then `k` was not recorded before (a repeated part never counts), and the recorded
+parts together with `k` are pairwise distinct and at least `threshold` many. -/
+theorem attempt_completes_only_at_threshold_distinct (cfg : Cfg) (ks : List Part) (k : Part) :
+    let st := (run cfg [] ks).1
+    (submit cfg st k).2.completes = true →
+      k ∉ st ∧ (st ++ [k]).Nodup ∧ cfg.threshold ≤ ((st ++ [k]).length : Int) := by
+  intro st hc
+  have hinv : Inv cfg st := run_inv ks (inv_nil cfg)
+  unfold submit at hc
+  split at hc
+  · simp [Outcome.completes] at hc
+  · split at hc
+    · simp [Outcome.completes] at hc
+    · split at hc
+      · simp [Outcome.completes] at hc
+      · rename_i hnc
+        have hk : k ∉ st := by simpa using hnc
+        simp only at hc
+        split at hc
+        · simp [Outcome.completes] at hc
+        · rename_i hge
+          refine ⟨hk, ?_, by omega⟩
+          rw [List.nodup_append]
+          refine ⟨hinv.nodup, by simp, ?_⟩
+          intro a ha b hb
+          simp only [List.mem_singleton] at hb
+          subst hb
+          intro hab; subst hab; exact hk ha
+
+open Obao.Threshold in
 /-- the accounting is live: three distinct shares at threshold 3 unseal; a repeated share does not count -/
 example :
     let cfg : Cfg := ⟨3, 3, 3⟩
